@@ -302,8 +302,10 @@ def stepping_rules(OB, prog, eff, prim):
                     if r[0] == 'cmp' and any(is_call(unref(x), "size_of") for x in (r[2], r[3])) and any(unref(x)[0] == 'const' for x in (r[2], r[3])):
                         if word_test_holds_on_64bit(r) is False:
                             word_dir_ok = False
-                guards = [r for r in parent.facts_at(p_) if not (r[0] == 'cmp' and any(is_call(unref(x), "size_of") for x in (r[2], r[3])) and
-                                                                  any(unref(x)[0] == 'const' for x in (r[2], r[3])))]
+                # conditions under which the pass is SKIPPED (a branch with a real alternative); what an assertion established in front
+                # of it is a precondition of the routine, not a guard of the pass
+                guards = [r for r in parent.skip_facts_at(p_) if not (r[0] == 'cmp' and any(is_call(unref(x), "size_of") for x in (r[2], r[3])) and
+                                                                       any(unref(x)[0] == 'const' for x in (r[2], r[3])))]
                 chain_ok = chain_ok and not guards and bool(narrow) and narrow[0][0][0] in parent.reachable(p_[0]) and p_[0] not in parent.reachable(narrow[0][0][0])
         exits_ok = bool(seq) and all(parent.node_dominates(seq[-1][0][0], x) for x in parent.exits())
         order_ok = [v for _p, v in seq] == [8, 4, 2, 1] and chain_ok and exits_ok and word_dir_ok
